@@ -72,6 +72,13 @@ def special_family():
     yield _mk(ins, ["g", "xor_a_b"], [], [["assign", [["xor_a_b", ["and", "a", "c"]]]], ["assign", [["g", ["or", ["xor", "a", "b"], "c"]]]]]), "syn"
     yield _mk(ins, ["y", "z"], ["and_a_b"], [["gate", "or", [["g0", "and_a_b", ["a", "c"]]]], ["assign", [["y", ["xor", ["and", "a", "b"], "c"]]]],
                                               ["assign", [["z", "and_a_b"]]]]), "syn"
+    # a declared net named like the synthetic name of its OWN driver, read and negated by name elsewhere
+    for op, nm in (("and", "and_a_b"), ("or", "or_a_b"), ("xor", "xor_a_b")):
+        drv = ["assign", [[nm, [op, "a", "b"]]]]
+        use = [["assign", [["y", ["not", nm]]]], ["assign", [["z", ["and", nm, "c"]]]]]
+        yield _mk(ins, ["y", "z"], [nm], [drv] + use), "own"
+        yield _mk(ins, ["y", "z"], [nm], use + [drv]), "own"
+        yield _mk(ins, ["y", "z", nm], [], [drv] + use), "own"
 
 
 def joined_family():
